@@ -72,8 +72,8 @@ def script_of(case):
     for k, s in enumerate(case["sessions"]):
         L += ["mark s%d" % k, "sim_opt silent %d" % (0 if s["answering"] else 1), "sim_opt cap %d" % s["cap"],
               "#cfg %s" % ("valid" if s["cfg_ok"] else "invalid"),
-              ("serialstart /nonexistent/ttyBiDiB %s %d" % (case["dir"] if s["cfg_ok"] else case["baddir"], s["flush"])) if s["serial"] else
-              ("simstart %d %s %d" % (1 if s["debug"] else 0, case["dir"] if s["cfg_ok"] else case["baddir"], s["flush"])), "globals"]
+              ("serialstart /nonexistent/ttyBiDiB %s %d" % (case["dir"] if s["cfg_ok"] else case["baddir"] + "2", s["flush"])) if s["serial"] else
+              ("simstart %d %s %d" % (1 if s["debug"] else 0, case["dir"] if s["cfg_ok"] else case["baddir"] + ("2" if s["debug"] else ""), s["flush"])), "globals"]
         if s["again"] and s["runs"]: L += ["mark again%d" % k, "simstart %d %s %d" % (1 if s["debug"] else 0, case["dir"], s["flush"])]
         if s["act"]: L += ["mark act%d" % k] + s["act"]
         if s["capprobe"]: L += ["mark cap%d" % k, "capprobe"]
@@ -172,7 +172,19 @@ def judge(case, lines):
 def run_cases(exe, md, cases, workers=12):
     for c in cases:
         simgen.write_yaml(c["cfg"], c["dir"]); simgen.write_yaml(c["cfg"], c["baddir"])
+        # what makes the configuration invalid varies: an incomplete board record, unterminated YAML in the track file (the board
+        # file was parsed before), or a train record the train parser rejects after it has opened its file (board and track parsed)
+        # (the variants with a valid board file are used for sessions without a bus dialogue only - debug mode, unopenable serial
+        # device: with a bus the library runs the dialogue on the partly loaded configuration, which the model does not describe)
         with open(os.path.join(c["baddir"], "bidib_board_config.yml"), "w") as f: f.write("boards:\n  - id: b0\n")
+        simgen.write_yaml(c["cfg"], c["baddir"] + "2")
+        bk = c["idx"] % 3
+        if bk == 0:
+            with open(os.path.join(c["baddir"] + "2", "bidib_track_config.yml"), "w") as f: f.write("boards: [\n")
+        elif bk == 1:
+            with open(os.path.join(c["baddir"] + "2", "bidib_train_config.yml"), "w") as f: f.write("trains:\n  - id: tbad\n    dcc-address: 0x0001\n    dcc-speed-steps: 27\n")
+        else:
+            with open(os.path.join(c["baddir"] + "2", "bidib_train_config.yml"), "w") as f: f.write("trains:\n  - id: [\n")
     res = {}
     env = dict(os.environ); env.update(vlib.SAN_ENV); env.update(ENV)
     def work(part):
